@@ -108,6 +108,7 @@ def gen_case(rng, i, nprocs):
                 p.def_var(b"gonevar", 4, [p.fm.unlimdim()])
             p.emit("*", "abort", Expect(0, what="abort of a redefinition"), f=p.f)
             p.fm = saved
+            p.new_vars = []
             p.emit("*", "barrier")
             l1 = p.emit(0, "filehash", None, path="s:@OUT@/c06.nc")
             p.reopen(omode=1)
